@@ -4,9 +4,11 @@ import (
 	"encoding/json"
 	"errors"
 	"fmt"
+	"os"
 	"os/exec"
 	"regexp"
 	"sort"
+	"strconv"
 	"strings"
 	"testing"
 
@@ -18,6 +20,8 @@ import (
 // agree on every triple of the deciding domain.
 func TestCrossCheck(t *testing.T) {
 	const schemas = 300
+	// SCHEMAREF_XSEED shifts the PRNG seeds (default 0) to explore other schemas.
+	base, _ := strconv.Atoi(os.Getenv("SCHEMAREF_XSEED"))
 	type meta struct {
 		schema int
 		origin string // "valid", mutant kind, "random"
@@ -29,7 +33,7 @@ func TestCrossCheck(t *testing.T) {
 	byOrigin := map[string][2]int{}
 	total := 0
 	for i := 0; i < schemas; i++ {
-		rng := ev.NewRand(int64(i), "xcheck-test")
+		rng := ev.NewRand(int64(base*schemas+i), "xcheck-test")
 		comps, root := GenSchema(rng, optionsFor(i))
 		res := MapResolver(comps)
 		s := comps[root]
